@@ -15,7 +15,7 @@ from sim import sched as S
 
 PROP = "C19"
 GROUPS = ["m_basic", "m_ns", "m_same1", "m_same2", "m_xsi", "m_wild", "m_compound", "noclass", "ctx"]
-MODES = [("shared", False)] * 14 + [("all", False)] * 3 + [("shared", True)] * 3
+MODES = [("shared", False)] * 7 + [("writers", False)] * 7 + [("all", False)] * 2 + [("shared", True)] * 2 + [("writers", True)] * 2
 THREAD_COUNTS = [2, 2, 2, 2, 3, 3, 3, 4, 4, 5, 6, 8, 10, 12, 16]
 
 _codes_cache = {}
@@ -26,7 +26,33 @@ def codes_for(mode):
         allc = S.xsdata_code_objects()
         _codes_cache["all"] = allc
         _codes_cache["shared"] = S.shared_code_objects(allc)
+        _codes_cache["writers"] = _codes_cache["shared"] | S.writer_code_objects(allc)
     return _codes_cache[mode]
+
+
+_loc_codes = {}
+
+
+def codes_with(locs):
+    """Code objects whose line table contains one of the given locations."""
+    if not _loc_codes:
+        for code in codes_for("all"):
+            for _, _, line in code.co_lines():
+                if line is not None:
+                    _loc_codes.setdefault(S.short_loc(code, line), set()).add(code)
+    out = set()
+    for loc in locs:
+        out |= _loc_codes.get(loc, set())
+    return out
+
+
+_lines_cache = {}
+
+
+def lines_for(mode):
+    if mode not in _lines_cache:
+        _lines_cache[mode] = S.line_table(codes_for(mode))
+    return _lines_cache[mode]
 
 
 def current_M():
@@ -36,16 +62,108 @@ def current_M():
 
 
 # ---------------------------------------------------------------- generation
+_by_group = {}
+
+
 def _index_ops():
-    by_group = {}
-    for op in core.Z.ops:
-        by_group.setdefault(op.group, []).append(op)
-    return by_group
+    if not _by_group:
+        for op in core.Z.ops:
+            _by_group.setdefault(op.group, []).append(op)
+    return _by_group
+
+
+_first_index = {}
+
+
+def first_use_index():
+    """line -> operations that execute it only on first use (lazy initialisation code)."""
+    if not _first_index and core.Z.cov_first:
+        table = lines_for("all")
+        for name in sorted(core.Z.cov_first):
+            op = core.Z.op_by_name[name]
+            if op.needs:
+                continue
+            for loc in core.Z.cov_first[name] & table:
+                _first_index.setdefault(loc, []).append(name)
+    return _first_index
+
+
+def warm_tables():
+    """Fill every lookup table in the zygote so that forked runs do not recompute them."""
+    for mode in ("shared", "writers", "all"):
+        lines_for(mode)
+    codes_with(())
+    first_use_index()
+    _index_ops()
+
+
+def gen_directed(seed, rng):
+    """Two or more threads make their *first* use of the same lazily initialised state; pre-empt inside it.
+
+    Hot lines are drawn from the per-call coverage of the reference pass: lines a call executes on cold
+    instances but not on warm ones, preferably inside functions that also run warm (check-then-build, memo fill)."""
+    index = first_use_index()
+    if not index:
+        return None
+    names = [o.name for o in core.Z.ops if not o.needs and core.Z.cov_first.get(o.name)]
+    a = rng.choice(names)
+    table = lines_for("all")
+    lazy = sorted(core.Z.cov_lazy.get(a, frozenset()) & table)
+    first = sorted(core.Z.cov_first[a] & lines_for("writers"))
+    cands = lazy if (lazy and rng.random() < 0.8) else first
+    if not cands:
+        return None
+    h = rng.choice(cands)
+    hot = [h]
+    if rng.random() < 0.4:
+        hot += rng.sample(cands, min(len(cands), rng.choice([1, 2])))
+    r = rng.random()
+    same_doc = [nm for nm in index.get(h, ()) if _subject(nm) == _subject(a)]
+    if r < 0.4:
+        b = a
+    elif r < 0.75 and same_doc:
+        b = rng.choice(same_doc)
+    elif index.get(h):
+        b = rng.choice(index[h])
+    else:
+        b = a
+    n = rng.choice([2, 2, 2, 3, 3, 4])
+    threads = [[a], [b]]
+    pool = same_doc or index.get(h) or [a]
+    for _ in range(n - 2):
+        threads.append([rng.choice(pool) if rng.random() < 0.7 else rng.choice(names)])
+    for prog in threads:
+        if rng.random() < 0.3:
+            prog.append(rng.choice(names))
+    rng.shuffle(threads)
+    return {
+        "seed": seed,
+        "threads": threads,
+        "warmup": [],
+        "shared_tools": rng.random() < 0.7,
+        "mode": "hotonly",
+        "opcode": False,
+        "hot": sorted(set(hot)),
+        "p_hot": rng.choice([0.7, 1.0, 1.0]),
+        "p": 0.0,
+        "loc_cap": 1,
+        "max_switches": rng.choice([2, 4, 8]),
+        "strategy": "directed",
+    }
+
+
+def _subject(name):
+    parts = name.split(":")
+    return parts[2] if parts[0] == "parse_xml" else parts[1]
 
 
 def gen_spec(seed):
     """Everything about a run except the schedule, which the seeded scheduler decides on the fly."""
     rng = random.Random(seed)
+    if core.Z.cov_first and rng.random() < 0.45:
+        spec = gen_directed(seed, rng)
+        if spec:
+            return spec
     by_group = _index_ops()
     n = rng.choice(THREAD_COUNTS)
     focus = rng.sample(GROUPS[:-2], rng.choice([1, 1, 2, 2, 3]))
@@ -79,6 +197,35 @@ def gen_spec(seed):
     if rng.random() < 0.35 and early:
         warm = [rng.choice(early).name for _ in range(rng.choice([1, 2, 3]))]
     mode, opcode = rng.choice(MODES)
+    # conflict-directed pre-emption: lines (of the traced code set) that the calls of at least two
+    # different threads execute, according to the per-call line coverage of the reference pass
+    hot = []
+    if core.Z.cov and not opcode and rng.random() < 0.6:
+        table = lines_for(mode)
+        seen_by = {}
+        for t, prog in enumerate(threads):
+            locs = set()
+            for nm in prog:
+                locs |= core.Z.cov.get(nm, frozenset())
+            for loc in locs & table:
+                seen_by[loc] = seen_by.get(loc, 0) + 1
+        contended = sorted(loc for loc, c in seen_by.items() if c >= 2)
+        if contended:
+            hot = rng.sample(contended, min(len(contended), rng.choice([1, 1, 2, 3])))
+    if hot:
+        return {
+            "seed": seed,
+            "threads": threads,
+            "warmup": warm,
+            "shared_tools": rng.random() < 0.7,
+            "mode": mode,
+            "opcode": False,
+            "hot": hot,
+            "p_hot": rng.choice([0.6, 0.9, 1.0]),
+            "p": rng.choice([0.0, 0.0, 0.01, 0.05]),
+            "loc_cap": rng.choice([1, 1, 2]),
+            "max_switches": rng.choice([4, 8, 16]),
+        }
     return {
         "seed": seed,
         "threads": threads,
@@ -174,6 +321,8 @@ def run_spec(spec, R, timeout=20.0):
         loc_cap=spec.get("loc_cap", 2),
         max_switches=spec.get("max_switches", 64),
         step_cap=spec.get("step_cap", 3_000_000),
+        hot=spec.get("hot", ()),
+        p_hot=spec.get("p_hot", 0.9),
     )
 
     # index-integrity probe at the point of observation
@@ -230,7 +379,11 @@ def run_spec(spec, R, timeout=20.0):
     for t, th in enumerate(threads):
         th.start()
         sch.idents[th.ident] = t
-    monitor = S.Monitor(sch, codes_for(spec.get("mode", "shared")), opcode=spec.get("opcode", False))
+    if spec.get("mode") == "hotonly":
+        traced = codes_with(spec.get("hot", ()))
+    else:
+        traced = codes_for(spec.get("mode", "shared"))
+    monitor = S.Monitor(sch, traced, opcode=spec.get("opcode", False))
     monitor.install()
     t0 = time.monotonic()
     sch.current = sch.start
@@ -257,6 +410,8 @@ def run_spec(spec, R, timeout=20.0):
         "steps": sch.steps,
         "switches": sch.nswitch,
         "nthreads": n,
+        "hot_hits": sch.hot_hits,
+        "mode": spec.get("mode", "shared") + ("/opcode" if spec.get("opcode") else "") + ("/directed" if spec.get("strategy") == "directed" else ("/hot" if spec.get("hot") else "")),
         "nops": stats["ops"],
         "imports": stats["imports"],
         "wall": wall,
